@@ -263,39 +263,40 @@ open EvalFilter.Exec in
     body once per turn while its condition is truthy; `return` ends the script at once with its value;
     running off the end yields null; the first error ends the run - with the result, the output and the
     variables the semantics prescribes. -/
-theorem C02_program_correct (prog : Program) (hp : pureSs prog = true) (hne : prog ≠ []) (c : Compiled)
+theorem C02_program_correct (F : FnTable) (prog : Program) (hp : pureSs prog = true) (hne : 1 ≤ Stmt.sizes prog) (c : Compiled)
     (hc : compileProgram prog = .ok c) (fns : List (Str × FnImpl)) (obj : HostVal) (env : Env) (out : Str)
     (polls depth f : Nat)
-    (hnd : execSs (Api.newMachine c false fns (fun _ => false)) obj f prog env out ≠ .diverged) :
+    (hF : FnOK (Api.newMachine c false fns (fun _ => false)) F obj)
+    (hnd : execSs (Api.newMachine c false fns (fun _ => false)) F obj depth f prog env out ≠ .diverged) :
     ∃ n k, ∀ fuel, ∃ st',
       run (Api.newMachine c false fns (fun _ => false)) obj (fuel + n) ⟨env, out, polls, depth⟩ = st' ∧
-      (match programResult (polls + k) depth (execSs (Api.newMachine c false fns (fun _ => false)) obj f prog env out) with
+      (match programResult (polls + k) depth (execSs (Api.newMachine c false fns (fun _ => false)) F obj depth f prog env out) with
        | some (r, s) => st'.1 = r ∧ st'.2.out = s.out ∧ st'.2.env.globals = s.env.globals ∧ st'.2.polls = s.polls
        | none => True) :=
-  program_correct prog hp hne c hc fns obj env out polls depth f hnd
+  program_correct F prog hp hne c hc fns obj env out polls depth f hF hnd
 
 open EvalFilter.Exec in
 /-- what the semantics says, spelled out for a block: statements run one after the other while each
     falls through; anything else (return, error) ends the block with that outcome -/
-theorem C02_block_semantics (M : Machine) (obj : HostVal) (f : Nat) (s : Stmt) (ss : List Stmt) (env : Env) (out : Str) :
-    execSs M obj (f + 1) (s :: ss) env out =
-      (match execS M obj f s env out with
-       | .normal env' o' => execSs M obj f ss env' o'
+theorem C02_block_semantics (M : Machine) (F : FnTable) (obj : HostVal) (depth f : Nat) (s : Stmt) (ss : List Stmt) (env : Env) (out : Str) :
+    execSs M F obj depth (f + 1) (s :: ss) env out =
+      (match execS M F obj depth f s env out with
+       | .normal env' o' => execSs M F obj depth f ss env' o'
        | other => other) := by
   simp only [execSs]
-  cases execS M obj f s env out <;> rfl
+  cases execS M F obj depth f s env out <;> rfl
 
 open EvalFilter.Exec in
 /-- … and for a loop: the condition is evaluated; if truthy the body runs once and the loop starts
     again with the variables the body left, otherwise the loop is over -/
-theorem C02_while_semantics (M : Machine) (obj : HostVal) (f : Nat) (c : Expr) (body : List Stmt) (env : Env) (out : Str) :
-    execE M obj (f + 1) (.whileE c body) env out =
+theorem C02_while_semantics (M : Machine) (F : FnTable) (obj : HostVal) (depth f : Nat) (c : Expr) (body : List Stmt) (env : Env) (out : Str) :
+    execE M F obj depth (f + 1) (.whileE c body) env out =
       (match evalE M obj env c out with
        | (.error e, o) => .failed e env o
        | (.ok cv, o) =>
          if cv.truthy then
-           match execSs M obj f body env o with
-           | .normal env' o' => execE M obj f (.whileE c body) env' o'
+           match execSs M F obj depth f body env o with
+           | .normal env' o' => execE M F obj depth f (.whileE c body) env' o'
            | other => other
          else .normal env o) := by
   simp only [execE]
@@ -306,7 +307,7 @@ theorem C02_while_semantics (M : Machine) (obj : HostVal) (f : Nat) (c : Expr) (
     | ok cv =>
       by_cases h : cv.truthy = true
       · simp only [h, ↓reduceIte]
-        cases execSs M obj f body env o <;> rfl
+        cases execSs M F obj depth f body env o <;> rfl
       · simp only [h, Bool.false_eq_true, ↓reduceIte]
 
 open EvalFilter.Exec in
@@ -315,13 +316,13 @@ open EvalFilter.Exec in
     string, the sorted entries of a hash) is bound to the loop variable(s) and the body runs once; when
     the elements are used up the scope is closed and the loop is over; `return` or an error in the body
     ends the loop at once -/
-theorem C02_foreach_semantics (M : Machine) (obj : HostVal) (f : Nat) (idx x : Str) (body : List Stmt)
+theorem C02_foreach_semantics (M : Machine) (F : FnTable) (obj : HostVal) (depth f : Nat) (idx x : Str) (body : List Stmt)
     (it : Value) (k : Nat) (env : Env) (out : Str) :
-    execIter M obj (f + 1) idx x body it k env out =
+    execIter M F obj depth (f + 1) idx x body it k env out =
       (match iterNext it k with
        | some (val, i) =>
-         match execSs M obj f body (if idx.isEmpty then env.declare x val else (env.declare x val).declare idx i) out with
-         | .normal env' o' => execIter M obj f idx x body it (k + 1) env' o'
+         match execSs M F obj depth f body (if idx.isEmpty then env.declare x val else (env.declare x val).declare idx i) out with
+         | .normal env' o' => execIter M F obj depth f idx x body it (k + 1) env' o'
          | other => other
        | none =>
          match env.removeScope with
@@ -333,17 +334,17 @@ theorem C02_foreach_semantics (M : Machine) (obj : HostVal) (f : Nat) (idx x : S
   | some p =>
     obtain ⟨val, i⟩ := p
     simp only []
-    cases execSs M obj f body (if idx.isEmpty then env.declare x val else (env.declare x val).declare idx i) out <;> rfl
+    cases execSs M F obj depth f body (if idx.isEmpty then env.declare x val else (env.declare x val).declare idx i) out <;> rfl
 
 open EvalFilter.Exec in
-theorem C02_foreach_start (M : Machine) (obj : HostVal) (f : Nat) (idx x : Str) (v : Expr) (body : List Stmt)
+theorem C02_foreach_start (M : Machine) (F : FnTable) (obj : HostVal) (depth f : Nat) (idx x : Str) (v : Expr) (body : List Stmt)
     (env : Env) (out : Str) :
-    execE M obj (f + 1) (.foreachE idx x v body) env out =
+    execE M F obj depth (f + 1) (.foreachE idx x v body) env out =
       (match evalE M obj env v out with
        | (.error e, o) => .failed e env o
        | (.ok iv, o) =>
          match resetVal iv with
-         | .ok it => execIter M obj f idx x body it 0 env.addScope o
+         | .ok it => execIter M F obj depth f idx x body it 0 env.addScope o
          | .error e => .failed e env.addScope o) := by
   simp only [execE]
   cases evalE M obj env v out with
@@ -357,17 +358,17 @@ open EvalFilter.Exec in
     right; for each test the switch value is evaluated anew, then the case expression, and OpCase decides
     (same type and text; else, for a regexp case, the match; else no); the FIRST test that succeeds runs
     its block and the switch is over - exactly one arm runs; when none succeeds the default block runs -/
-theorem C02_switch_semantics (M : Machine) (obj : HostVal) (f : Nat) (v : Expr) (cs : List Case) (env : Env) (out : Str) :
-    execE M obj (f + 1) (.switchE v cs) env out =
-      (match execArms M obj f v cs env out with
+theorem C02_switch_semantics (M : Machine) (F : FnTable) (obj : HostVal) (depth f : Nat) (v : Expr) (cs : List Case) (env : Env) (out : Str) :
+    execE M F obj depth (f + 1) (.switchE v cs) env out =
+      (match execArms M F obj depth f v cs env out with
        | .done o => o
-       | .next env' out' => execDefaults M obj f cs env' out') := by
+       | .next env' out' => execDefaults M F obj depth f cs env' out') := by
   simp only [execE]
-  cases execArms M obj f v cs env out <;> rfl
+  cases execArms M F obj depth f v cs env out <;> rfl
 
 open EvalFilter.Exec in
-theorem C02_switch_test (M : Machine) (obj : HostVal) (f : Nat) (v e : Expr) (es : List Expr) (b : List Stmt) (env : Env) (out : Str) :
-    execArm M obj (f + 1) v (e :: es) b env out =
+theorem C02_switch_test (M : Machine) (F : FnTable) (obj : HostVal) (depth f : Nat) (v e : Expr) (es : List Expr) (b : List Stmt) (env : Env) (out : Str) :
+    execArm M F obj depth (f + 1) v (e :: es) b env out =
       (match evalE M obj env v out with
        | (.error x, o) => .done (.failed x env o)
        | (.ok vv, o1) =>
@@ -377,8 +378,8 @@ theorem C02_switch_test (M : Machine) (obj : HostVal) (f : Nat) (v e : Expr) (es
            match caseOp M vv ev with
            | .error x => .done (.failed x env o2)
            | .ok (t, o3) =>
-             if t.truthy then .done (execSs M obj f b env (o2 ++ o3))
-             else execArm M obj f v es b env (o2 ++ o3)) := by
+             if t.truthy then .done (execSs M F obj depth f b env (o2 ++ o3))
+             else execArm M F obj depth f v es b env (o2 ++ o3)) := by
   simp only [execArm]
   cases evalE M obj env v out with
   | mk res o1 =>
@@ -415,8 +416,11 @@ private def progF : Program :=
 private def compF : Compiled := match compileProgram progF with | .ok c => c | .error _ => ⟨[], [], []⟩
 example : pureSs progF = true := by decide
 example : compileProgram progF = .ok compF := by rfl
-example : ∃ e o, execSs (Api.newMachine compF false [] (fun _ => false)) .nilIface 10 progF {} [] = .returned (.int 7) e o :=
+example : ∃ e o, execSs (Api.newMachine compF false [] (fun _ => false)) [] .nilIface 0 10 progF {} [] = .returned (.int 7) e o :=
   ⟨_, _, by rfl⟩
+/-- a script that defines no function meets the function-table hypothesis with the empty table -/
+example : FnOK (Api.newMachine compF false [] (fun _ => false)) [] .nilIface :=
+  ⟨fun _ _ => rfl, fun _ _ h => by simp [FnTable.find] at h⟩
 /-- `k = 0; while (k < 3) { k = k + 1; } if (k == 3) { return 1; } else { return 2; }` -/
 private def progW : Program :=
   [ .expr (.assign ['k'] (.intLit ['0'] 0)),
@@ -425,7 +429,7 @@ private def progW : Program :=
 private def compW : Compiled := match compileProgram progW with | .ok c => c | .error _ => ⟨[], [], []⟩
 example : pureSs progW = true := by decide
 example : compileProgram progW = .ok compW := by rfl
-example : ∃ e o, execSs (Api.newMachine compW false [] (fun _ => false)) .nilIface 12 progW {} [] = .returned (.int 1) e o :=
+example : ∃ e o, execSs (Api.newMachine compW false [] (fun _ => false)) [] .nilIface 0 12 progW {} [] = .returned (.int 1) e o :=
   ⟨_, _, by rfl⟩
 /-- `k = 2; switch (k + 1) { case 1, 2 { return "a"; } case 3 { r = "b"; } default { r = "c"; } } return r;` -/
 private def progS : Program :=
@@ -438,7 +442,7 @@ private def progS : Program :=
 private def compS : Compiled := match compileProgram progS with | .ok c => c | .error _ => ⟨[], [], []⟩
 example : pureSs progS = true := by decide
 example : compileProgram progS = .ok compS := by rfl
-example : ∃ e o, execSs (Api.newMachine compS false [] (fun _ => false)) .nilIface 12 progS {} [] = .returned (.str ['b']) e o :=
+example : ∃ e o, execSs (Api.newMachine compS false [] (fun _ => false)) [] .nilIface 0 12 progS {} [] = .returned (.str ['b']) e o :=
   ⟨_, _, by rfl⟩
 end nonvacuous
 
